@@ -173,7 +173,15 @@ pub fn gen_tape(family: u8, seed: u64, len: usize, flt: Flt, positive: bool, sca
                 // the subnormal range of the element type (sums of subnormals are exact; the
                 // oracle has an absolute floor there)
                 let sub = if flt == Flt::F32 { f32::from_bits(1) as f64 } else { f64::from_bits(1) };
-                sub * (r.below(5000) as f64) * if r.chance(0.7) { 1.0 } else { -1.0 }
+                let minp = if flt == Flt::F32 { f32::MIN_POSITIVE as f64 } else { f64::MIN_POSITIVE };
+                if delta < 0.03 {
+                    // whole tape inside the subnormal range
+                    sub * (r.below(5000) as f64) * if r.chance(0.7) { 1.0 } else { -1.0 }
+                } else {
+                    // normal numbers just above the underflow threshold: the rounding error of
+                    // every addition is itself subnormal
+                    minp * 10f64.powf(r.unit() * 6.0) * if r.chance(0.8) { 1.0 } else { -1.0 }
+                }
             }
             _ => {
                 // huge magnitudes: 2^-24 of the largest finite value, so that 10^7 terms cannot overflow
